@@ -4,19 +4,14 @@
    the identity stands for the address of the element object (Tuple stores pointers and
    iterates by pointer identity; Array and List copy values and ignore it). *)
 From Coq Require Import List Arith NArith ZArith Extraction ExtrOcamlBasic.
-From CelloV Require Import Generated TableModel SeqModels.
-
-Definition elt := (Z * Z)%type.
-Definition e_eqb (a b : elt) : bool := Z.eqb (snd a) (snd b).
-Definition e_ltb (a b : elt) : bool := Z.ltb (snd a) (snd b).
-Definition e_same (a b : elt) : bool := Z.eqb (fst a) (fst b).
-Definition e_zero : elt := (0%Z, 0%Z).
+From CelloV Require Import Generated TableModel SeqModels SeqCmps.
 
 Definition zs_op := sop elt.
 Definition zs_out := out elt.
 
 Definition za_new : list elt -> array elt := a_new elt.
-Definition za_step := a_step elt e_eqb e_ltb array_grow_cond array_shrink_cond array_grow_size array_shrink_size.
+(* k selects the comparison handed to sort_by (SeqCmps.e_cmp); 0 = lt = plain sort *)
+Definition za_step (k : nat) := a_step elt e_eqb (e_cmp k) array_grow_cond array_shrink_cond array_grow_size array_shrink_size.
 Definition za_iter := a_iter elt.
 Definition za_nitems (a : array elt) := nitems elt a.
 Definition za_nslots (a : array elt) := nslots elt a.
@@ -27,13 +22,14 @@ Definition zl_iter := l_iter elt.
 Definition zl_nitems (l : llist elt) := lnitems elt l.
 
 Definition zt_new : list elt -> bool -> tuple elt := t_new elt.
-Definition zt_step := t_step elt e_eqb e_ltb e_same.
+Definition zt_step (k : nat) := t_step elt e_eqb (e_cmp k) e_same.
 Definition zt_iter := t_iter elt e_same.
 Definition zt_iter_fuel := t_iter_fuel elt e_same.
 Definition zt_len := t_len elt.
 Definition zt_raw (its : list (titem elt)) (heap : bool) : tuple elt := mkTu elt its heap.
 
-Definition zspec_step := spec_step elt e_eqb e_ltb e_zero.
+Definition zspec_step (k : nat) := spec_step elt e_eqb (e_cmp k) e_zero.
+Definition zcmp_in_contract := cmp_in_contract.
 Definition zspec_in_range := in_range elt e_eqb.
 Definition z_ltb := Z.ltb.
 Definition z_to_n := Z.to_N.      (* conv.ml.inc needs the type N *)
@@ -41,4 +37,4 @@ Definition z_to_n := Z.to_N.      (* conv.ml.inc needs the type N *)
 Extraction Language OCaml.
 Extraction "../ocaml/gen/Seq.ml" za_new za_step za_iter za_nitems za_nslots
   zl_new zl_step zl_iter zl_nitems zt_new zt_step zt_iter zt_iter_fuel zt_len zt_raw
-  zspec_step zspec_in_range z_ltb z_to_n.
+  zspec_step zspec_in_range zcmp_in_contract z_ltb z_to_n.
